@@ -110,6 +110,17 @@ async fn run_case(flags: Vec<String>, behs: Vec<Beh>, ops: Vec<String>) -> Strin
             "sig" => { if main_done.load(std::sync::atomic::Ordering::SeqCst) { continue; }
                 let n: i32 = f[1].parse().unwrap();
                 let _ = wx.send_event(Event { tags: vec![Tag::Source(Source::Os), Tag::Signal(watchexec_signals::Signal::from(n))], metadata: Default::default() }, Priority::Urgent).await; }
+            // a change and a (non-urgent-only) signal delivered in ONE action: the change opens a long debounce window, the urgent signal flushes it
+            "mix" => { if main_done.load(std::sync::atomic::Ordering::SeqCst) { continue; }
+                let n: i32 = f[1].parse().unwrap();
+                nchg += 1; sh.log(format!("chg{nchg}"));
+                wx.config.throttle(Duration::from_secs(3600));
+                settle().await;
+                wx.send_event(change(nchg), Priority::Normal).await.unwrap();
+                settle().await;
+                let _ = wx.send_event(Event { tags: vec![Tag::Source(Source::Os), Tag::Signal(watchexec_signals::Signal::from(n))], metadata: Default::default() }, Priority::Urgent).await;
+                settle().await;
+                wx.config.throttle(Duration::ZERO); }
             "chg" => { if main_done.load(std::sync::atomic::Ordering::SeqCst) { continue; } nchg += 1; sh.log(format!("chg{nchg}")); wx.send_event(change(nchg), Priority::Normal).await.unwrap(); }
             "a" => { settle().await; tokio::time::sleep(Duration::from_millis(f[1].parse().unwrap())).await; settle().await; }
             "y" => settle().await,
